@@ -167,8 +167,21 @@ def binaryblock (L : Layout) (h : Hdr) : List Byte := serialize L h.e h.vals
 def asByteswapped (L : Layout) (h : Hdr) : Hdr :=
   ofBytes L h.e.swap (swapFields L (binaryblock L h))
 
+/-- `endian_codes[code]` (volumeutils.py 43-48, 237): every accepted spelling of a byte order; the
+    table (spelling, resolved order on this machine) is regenerated from `endian_codes.keys()`;
+    an unknown spelling is a `KeyError` (`none`). -/
+def endianOf? (tbl : List (String × Endian)) (s : String) : Option Endian :=
+  (tbl.find? (·.1 == s)).map (·.2)
+
 /-- `copy()` = `self.__class__(self.binaryblock, self.endianness, check=False)` -/
 def copy (L : Layout) (h : Hdr) : Hdr := ofBytes L h.e (binaryblock L h)
+
+/-- `as_byteswapped(endianness)` (wrapstruct.py 465-477) with the requested code already resolved
+    through `endian_codes`: `none` = swap from the current order; the current order = plain copy;
+    otherwise byteswap the data and label them with the target order. -/
+def asByteswappedTo (L : Layout) (h : Hdr) : Option Endian → Hdr
+  | none => asByteswapped L h
+  | some t => if t = h.e then copy L h else ofBytes L t (swapFields L (binaryblock L h))
 
 /-- `__eq__` -/
 def hdrEq (L : Layout) (a b : Hdr) : Bool :=
